@@ -409,6 +409,30 @@ def run_children(chk, drv, model, tmp):
         return None
     expect("cancel-escalate", proc_line(2, 20000, None, [proc_job(sh_argv("trap '' INT; sleep 30")), proc_job(sh_argv("sleep 30"), interruptible=False)]), chk_kill)
 
+    # cancellation racing spawn and exit: short children, cancel at a random moment; every launch is accounted for
+    def chk_race(rs):
+        for i, r in enumerate(rs):
+            if r["cb"] != "1":
+                return ("completion-not-once", "job %d: completion callback fired %s times" % (i, r["cb"]))
+            if r["started"] != r["finished"]:
+                return ("process-callbacks", "job %d: processStarted x%s but processFinished x%s" % (i, r["started"], r["finished"]))
+            if r["spawned"] == "0" and r["status"] != "Cancelled":
+                return ("status-not-fate", "job %d: no child was created yet the status is %s" % (i, r["status"]))
+            if r["spawned"] == "1":
+                raw = int(r["exit"])
+                want = "Succeeded" if raw == 0 else "Cancelled" if (raw & 0x7f) in (2, 9) else "Failed"
+                if r["status"] != want or (raw != 0 and (raw & 0x7f) not in (2, 9)):
+                    return ("status-not-fate", "job %d: raw status %d reported as %s" % (i, raw, r["status"]))
+                if not gone(int(r["pid"])):
+                    return ("child-not-reaped", "child %s still exists after the queue was destroyed" % r["pid"])
+        return None
+    for k in range(chk.n(8, 60)):
+        lanes = chk.rng.randint(1, 6)
+        njobs = chk.rng.randint(lanes, 4 * lanes)
+        cancel = chk.rng.choice([0, 0, 200, 1000, 3000, 8000, 20000])
+        expect("cancel-race-%d" % k, proc_line(lanes, cancel, None, [proc_job(sh_argv(chk.rng.choice(["exit 0", "sleep 0.01", "sleep 0.003; exit 0", "echo x; sleep 0.02"])),
+                                                                        control=chk.rng.random() < 0.5) for _ in range(njobs)]), chk_race)
+
     lines = [c[1] for c in cases]
     t0 = time.time()
     rc, out, err = vlib.run_lines(drv, lines, timeout=900, env=E)
@@ -561,13 +585,16 @@ def tsan_reports(err):
         if not m:
             continue
         kind = m.group(1).strip().replace(" ", "-")
-        frames = []
-        for sect in re.split(r"\n\s*\n", blk):
-            f = re.search(r"/repo/(?:lib|include)/\S*?([A-Za-z0-9_]+\.(?:cpp|h)):(\d+)", sect)
-            if f:
-                frames.append("%s.%s" % (f.group(1).split(".")[0], f.group(2)))
-        key = "tsan-%s-%s" % (kind, "+".join(sorted(set(frames))[:3]) or "driver-only")
-        out.append((key, "\n".join(blk.strip().splitlines()[:14])))
+        # key: the place TSan names in its SUMMARY line (else the first /repo frame of the first stack)
+        sm = re.search(r"SUMMARY: ThreadSanitizer: [^/\n]*(/\S+?)([A-Za-z0-9_]+)\.(?:cpp|h):(\d+)", blk)
+        if sm:
+            where = "%s.%s" % (sm.group(2), sm.group(3))
+        else:
+            f = re.search(r"/repo/(?:lib|include)/\S*?([A-Za-z0-9_]+)\.(?:cpp|h):(\d+)", blk)
+            where = "%s.%s" % (f.group(1), f.group(2)) if f else "driver-only"
+        key = "tsan-%s-%s" % (kind, where)
+        keep = [l for l in blk.strip().splitlines() if re.search(r"WARNING|SUMMARY|of size|Previous|Location|/repo/", l)]
+        out.append((key, "\n".join(l[:260] for l in keep[:24])))
     return out
 
 def run_tsan(chk, tmp):
@@ -682,8 +709,10 @@ def run(chk):
                       rule="queue: random job mixes (2-40 jobs, durations 0-2 ms, 20% high priority, ordinal names with ties, 30% of jobs added by running jobs, 1-3 client threads, "
                            "cancellation at a random time in 55%, destruction with 0-2 ms settle) on the real queue with 1-8 lanes and both schedulers; the observed trace is checked by "
                            "oracles (exactly once, lane bound, order, no spawn after cancel) and must be accepted by the extracted model; non-trivial = >= 2 jobs in flight or a job adding a job or "
-                           "a cancellation, distinct by the full label sequence. children: one case per fate (256 exit codes, 27 signals) and per behaviour listed in `child_cases`; "
-                           "environment: random requested/inherited/base lists compared with the property's precedence and with the model's envp",
+                           "a cancellation, distinct by the full label sequence; the same mixes on the serial queue (createSerialQueue) against the serial model. children: one case per fate (256 exit codes, 27 signals) and per behaviour listed in `child_cases`; "
+                           "cancellation racing spawn/exit of short children at random moments; "
+                           "environment: random requested/inherited/base lists (incl. the nested-llbuild ids) compared with the property's precedence and with the model's envp; "
+                           "thorough tier: queue mixes, serial mixes, lane release, cancellation and parallel output again under ThreadSanitizer",
                       extra=dict(partial="PARTIAL: the proofs cover the bookkeeping transition system (Queue/Lanes.v), the wait-status mapping and the environment construction. "
                                          "Real thread interleavings, pipe ordering, signal delivery and reaping are SAMPLED by this run, not proved.",
                                  exhaustive_tables="status_of_wait proved over all 65536 16-bit wait statuses by computation and characterised for every N; all 256 exit codes and all terminating/ignored signals 1..31 probed on real children"),
